@@ -27,6 +27,14 @@ Empty label values and a tag named `__name__` (identity corner cases):
   * a tag literally named `__name__` is accepted by the ingest path and is just one more label of the
     series' identity; matchers on `__name__` always address the metric name.
 
+Which datapoints are ACCEPTED (the statements speak about accepted datapoints only; `accepted`):
+  * a datapoint without any tag is rejected at ingest (a series is found through the tags trees of its tag keys
+    only; before the repair it was accepted and never returned — class `no-tags`);
+  * a datapoint with a tag value longer than 65535 bytes is rejected at ingest (the tags tree file frames a value
+    with a 16-bit length; before the repair it was accepted and lost with the rotation — class `tag-value-over-64k`).
+  The differential checks both directions: a datapoint of an accepted series must not be rejected, a datapoint of a
+  series that cannot be served must not be accepted.
+
 Engine conventions the spec has to know in order to state the guard under which "same timestamp" is
 meaningful: the engine reports every point at the start of its downsample bucket, bucket width =
 `calcInterval (end - start)` (pkg/segment/results/mresults/metricresults.go `steps`/`CalculateInterval`,
@@ -129,9 +137,17 @@ def selects (ms : List Matcher) (s : Series) : Bool := ms.all (·.ok s)
 
 def inRange (q : Query) (p : Nat × Nat) : Bool := q.start ≤ p.1 && p.1 ≤ q.end_
 
-/-- the selected series that have at least one point in the range, each with its in-range points by time -/
+/-- the longest tag value the tags tree file can frame (16-bit length field) -/
+def maxTagValueBytes : Nat := 65535
+
+/-- ingest accepts the datapoints of a series iff it has at least one tag and no tag value above 65535 bytes -/
+def accepted (s : Series) : Bool :=
+  !s.labels.isEmpty && s.labels.all (fun kv => kv.2.utf8ByteSize ≤ maxTagValueBytes)
+
+/-- the selected series that have at least one point in the range, each with its in-range points by time
+    (series whose datapoints the ingest path rejects hold nothing) -/
 def selected (ds : List Series) (q : Query) : List (Series × List (Nat × Nat)) :=
-  (ds.filter (selects q.matchers)).filterMap (fun s =>
+  ((ds.filter accepted).filter (selects q.matchers)).filterMap (fun s =>
     let ps := sortBy (fun a b => a.1 ≤ b.1) (s.points.filter (inRange q))
     if ps.isEmpty then none else some (s, ps))
 
@@ -202,34 +218,82 @@ def aggregated (a : Agg) (sel : List (Series × List (Nat × Nat))) : Option (Li
       ((members.flatMap (fun (_, ps) => (ps.filter (·.1 == t)).map (·.2))).mapM bitsToRat?).bind (fun vs =>
         (aggregate a.fn vs).map (fun v => (t, v))))).map (fun pts => (k, pts)))
 
-/-! ### input classes in which the engine is known to deviate (see known_findings.txt), and latitude -/
+/-! ### input classes in which the engine deviates or deviated (see known_findings.txt), and latitude
 
-/-- the string the engine hashes into the series id (tagsholder.go GetTSID): name, then per tag in
-    DESCENDING key order `__key__value` — without a separator between a value and the next key -/
-def tsidPreimage (s : Series) : String :=
+Classes of RECORDED deviations (`known:` lines): `absent-label-matcher` (matchers that an absent label satisfies),
+`value-has-comma`, `empty-group-key`, `name-regex-same-tagset` (aggregations only).
+Classes of REPAIRED deviations (`fixed:` lines) are still computed, so that a disagreement in such a class is
+reported under its old name should the defect return: `tsid-preimage-collision`, `no-tags`,
+`json-escaped-tag-value`, `same-label-twice`, `regex-on-empty-value`, `tag-value-over-64k`, `matcher-on-missing-key`
+(the repaired part of the former `absent-label-matcher`) (and `negative-zero`,
+which the comparison derives from the values; the repaired selector part of `name-regex-same-tagset` is detected
+by the comparison as e2em/name-regex-selector-reports-star).  The comparison
+(lib/e2ecmp.py) never lets a repaired class excuse anything. -/
+
+/-- the string the engine USED TO hash into the series id (tagsholder.go GetTSID before the repair): name, then per
+    tag in DESCENDING key order `__key__value` — without a separator between a value and the next key.  The repaired
+    code writes the length of the name, of every key and of every value in front of it (`tsidPreimage`). -/
+def tsidPreimageOld (s : Series) : String :=
   let tags := sortBy (fun a b => a.1 ≥ b.1) s.labels
   s.name ++ "__" ++ String.join (tags.map (fun (k, v) => k ++ "__" ++ v))
 
+/-- 4 bytes little endian (`utils.Uint32ToBytesLittleEndianInplace` of `uint32(len)`) -/
+def le32 (n : Nat) : List Nat := [n % 256, n / 256 % 256, n / 65536 % 256, n / 16777216 % 256]
+
+def strBytes (s : String) : List Nat := s.toUTF8.toList.map (·.toNat)
+
+/-- one length-prefixed field of the TSID input (`writeFieldLen(len(x))` then `x`) -/
+def fieldB (b : List Nat) : List Nat := le32 b.length ++ b
+
+/-- `tags_separator` = "__" (still written after the metric name and after every key) -/
+def sepB : List Nat := [95, 95]
+
+/-- the bytes the repaired GetTSID hashes, over byte strings: len name `__`, then per tag len key `__` len value -/
+def encTag (kv : List Nat × List Nat) : List Nat := fieldB kv.1 ++ sepB ++ fieldB kv.2
+
+def preimageB (name : List Nat) (tags : List (List Nat × List Nat)) : List Nat :=
+  fieldB name ++ sepB ++ (tags.map encTag).flatten
+
+/-- … for a series: tags in DESCENDING key order (`TagsHolder.finish`) -/
+def tsidPreimage (s : Series) : List Nat :=
+  preimageB (strBytes s.name) ((sortBy (fun a b => a.1 ≥ b.1) s.labels).map (fun kv => (strBytes kv.1, strBytes kv.2)))
+
 def sameSeries (a b : Series) : Bool := a.name == b.name && sameLabels a.labels b.labels
 
+/-- two different series whose OLD pre-images coincide (input class of the repaired TSID collision) -/
 def hasPreimageCollision (ds : List Series) : Bool :=
-  ds.any (fun a => ds.any (fun b => !sameSeries a b && tsidPreimage a == tsidPreimage b))
+  ds.any (fun a => ds.any (fun b => !sameSeries a b && tsidPreimageOld a == tsidPreimageOld b))
 
 def hasDup' : List String → Bool
   | [] => false
   | x :: r => r.contains x || hasDup' r
 
-/-- classes of inputs for which deviations of the engine are already recorded -/
+/-- does a series WITHOUT the matcher's label satisfy the matcher (the label then reads as "")? -/
+def Matcher.acceptsEmpty (m : Matcher) : Bool :=
+  match m.op with
+  | .eq => m.value == ""
+  | .ne => m.value != ""
+  | .re => (regexMatch? m.value "").getD false
+  | .nre => !((regexMatch? m.value "").getD true)
+
+/-- classes of inputs for which deviations of the engine are or were recorded -/
 def classes (ds : List Series) (q : Query) (sel : List (Series × List (Nat × Nat))) : List String :=
   let ingested := ds.filter (fun s => !s.points.isEmpty)
-  let c1 := if hasPreimageCollision ingested then ["tsid-preimage-collision"] else []
-  -- a series that satisfies the name matchers, has points in range and no label at all
+  let c1 := if hasPreimageCollision (ingested.filter accepted) then ["tsid-preimage-collision"] else []
+  -- a series that satisfies the name matchers, has points in range and no label at all (repaired: rejected at ingest)
   let nameMs := q.matchers.filter (·.label == "__name__")
   let c2 := if ingested.any (fun s => s.labels.isEmpty && selects nameMs s && s.points.any (inRange q)) then ["no-tags"] else []
-  -- a label matcher whose label is missing from a series that the name matchers select (with points in range)
-  let c3 := if ingested.any (fun s => selects nameMs s && s.points.any (inRange q) &&
-                 q.matchers.any (fun m => m.label != "__name__" && !s.keys.contains m.label)) then ["absent-label-matcher"] else []
-  let c4 := if sel.any (fun (s, _) => sel.any (fun (t, _) => s.name != t.name && sameLabels s.labels t.labels)) then ["name-regex-same-tagset"] else []
+  -- a label matcher that an ABSENT label satisfies (k="", k!="v", k!~"v", k=~".*"), whose label is missing from a series
+  -- that the name matchers select (with points in range).  Matchers that an absent label cannot satisfy are repaired.
+  let c3 := if (ingested.filter accepted).any (fun s => selects nameMs s && s.points.any (inRange q) &&
+                 q.matchers.any (fun m => m.label != "__name__" && !s.keys.contains m.label && m.acceptsEmpty)) then ["absent-label-matcher"] else []
+  -- two selected series with different metric names and equal tag sets, under an AGGREGATION (the engine then keys both by
+  -- "*{tags": count() sees one series).  For plain selectors the merge is repaired (every series keeps its metric name).
+  -- (repaired) a matcher that an absent label CANNOT satisfy, on a label missing from such a series: it used to be skipped
+  -- in segments whose tags tree holder has no tree for the key
+  let c3b := if (ingested.filter accepted).any (fun s => selects nameMs s && s.points.any (inRange q) &&
+                 q.matchers.any (fun m => m.label != "__name__" && !s.keys.contains m.label && !m.acceptsEmpty)) then ["matcher-on-missing-key"] else []
+  let c4 := if q.agg.isSome && sel.any (fun (s, _) => sel.any (fun (t, _) => s.name != t.name && sameLabels s.labels t.labels)) then ["name-regex-same-tagset"] else []
   let c5 := if sel.any (fun (s, _) => s.labels.any (fun kv => kv.2.contains ',')) then ["value-has-comma"] else []
   let c6 := if sel.any (fun (s, _) => s.labels.any (fun kv => kv.2.contains '"' || kv.2.contains '\\')) then ["json-escaped-tag-value"] else []
   let c6b := if hasDup' (q.matchers.map (·.label)) then ["same-label-twice"] else []
@@ -237,13 +301,13 @@ def classes (ds : List Series) (q : Query) (sel : List (Series × List (Nat × N
   let c6c := if ingested.any (fun s => selects nameMs s && s.points.any (inRange q) &&
                  q.matchers.any (fun m => m.label != "__name__" && (m.op == .re || m.op == .nre) &&
                    s.labels.any (fun kv => kv.1 == m.label && kv.2.isEmpty) && !m.ok s)) then ["regex-on-empty-value"] else []
-  -- some ingested series has a tag value longer than 65535 bytes
-  let c6d := if ingested.any (fun s => s.labels.any (fun kv => kv.2.utf8ByteSize > 65535)) then ["tag-value-over-64k"] else []
+  -- some ingested series has a tag value longer than 65535 bytes (repaired: rejected at ingest)
+  let c6d := if ingested.any (fun s => s.labels.any (fun kv => kv.2.utf8ByteSize > maxTagValueBytes)) then ["tag-value-over-64k"] else []
   let c7 := match q.agg with
     | none => []
     | some a =>
       (if a.mode != .none && sel.any (fun (s, _) => (groupKey a s).isEmpty) then ["empty-group-key"] else [])
-  c1 ++ c2 ++ c3 ++ c4 ++ c5 ++ c6 ++ c6b ++ c6c ++ c6d ++ c7
+  c1 ++ c2 ++ c3 ++ c3b ++ c4 ++ c5 ++ c6 ++ c6b ++ c6c ++ c6d ++ c7
 
 def isSmallInt (q : Rat) : Bool := q.den == 1 && q.num.natAbs < pow2 40
 
